@@ -14,7 +14,8 @@ mkdir -p evidence out
 case "$MODE" in
   quick)    exec bin/kmipsa -repo "$REPO" -verif "$PWD" -prop "$ID" -tier quick -evidence "evidence/$ID.json" ;;
   thorough) ./mutants.sh "$ID" 8 || true
-            exec bin/kmipsa -repo "$REPO" -verif "$PWD" -prop "$ID" -tier thorough -evidence "evidence/$ID.json" -mutants "out/$ID.mutants.json" ;;
+            ./benign.sh "$ID" 8 || true
+            exec bin/kmipsa -repo "$REPO" -verif "$PWD" -prop "$ID" -tier thorough -evidence "evidence/$ID.json" -mutants "out/$ID.mutants.json" -benign "out/$ID.benign.json" ;;
   --replay) exec bin/kmipsa -repo "$REPO" -verif "$PWD" -prop "$ID" -tier quick -evidence "evidence/$ID.json" -replay "${3:?report path}" ;;
   *) echo "usage: $0 <ID> quick|thorough|--replay <path>" >&2; exit 2 ;;
 esac
